@@ -3,6 +3,8 @@
   A  stop() while the pipeline is paused (concurrency 0) and drained: process() never returns
   B  concurrency 0 before process() starts: the supervisor loop spins without ever yielding
   C  stop() while the producer is blocked in put_item() behind a queued item: process() never returns
+  D  stop() before the producer task made its first step: the stop request is lost
+  E  a task that fails after stop() was requested: the failure is never retrieved
 
 Usage: /venv/bin/python c13_stop_hangs.py [root]   (root defaults to /repo); prints one line per scenario.
 """
@@ -88,6 +90,43 @@ async def scenario_c():
         return 'HANGS'
 
 
+async def scenario_d():
+    # stop() in the same tick in which process() was started: Producer.stop() runs before Producer.process() has set _running
+    p = Pipeline(Source(['a', 'b']), [Task(delay=0.01)])
+    t = asyncio.ensure_future(p.process())
+    asyncio.get_event_loop().call_soon(p.stop)
+    try:
+        await asyncio.wait_for(t, 2)
+        return 'returns'
+    except asyncio.TimeoutError:
+        return 'HANGS'
+
+
+async def scenario_e():
+    # two workers; item 'slow' fails after stop() was called from item 'fast': the failure must surface from process()
+    class Boom(Exception):
+        pass
+    p = None
+
+    class T(ItemTask):
+        async def process(self, item):
+            if item == 'fast':
+                await asyncio.sleep(0.05)
+                p.stop()
+            else:
+                await asyncio.sleep(0.15)
+                raise Boom(item)
+    p = Pipeline(Source(['fast', 'slow', 'x', 'y']), [T()])
+    p.concurrency = 2
+    try:
+        await asyncio.wait_for(p.process(), 2)
+        return 'RETURNS NORMALLY (failure swallowed)'
+    except Boom:
+        return 'raises the task failure'
+    except asyncio.TimeoutError:
+        return 'HANGS (failure swallowed)'
+
+
 def scenario_b():
     # runs in a child process: a spinning loop cannot be timed out from inside
     import subprocess
@@ -116,3 +155,5 @@ elif __name__ == '__main__':
     print('A stop while paused and drained      :', asyncio.run(scenario_a()))
     print('B concurrency 0 before process()     :', scenario_b())
     print('C stop while producer waits in put   :', asyncio.run(scenario_c()))
+    print('D stop in the tick process() starts  :', asyncio.run(scenario_d()))
+    print('E task fails after stop()            :', asyncio.run(scenario_e()))
